@@ -271,6 +271,7 @@ SET_OF_encode_oer(const asn_TYPE_descriptor_t *td,
     for(n = 0; n < list->count; n++) {
         void *memb_ptr = list->array[n];
         asn_enc_rval_t er;
+        if(!memb_ptr) ASN__ENCODE_FAILED;
         if(!elm->type->op->oer_encoder) {
             ASN_DEBUG("OER encoder is not defined for type %s",
                       elm->type->name);
